@@ -139,15 +139,16 @@ SPEC = {
                  "C12_heap_refines_priority_multiset",
                  "C12_queue_bounded_fifo", "C12_queue_ring_invariant", "C12_ring_refines_window", "C12_ring_toSlice_last_min_n_cap",
                  "C12_stack_lifo"],
-    "trusted_base": ["hand-written models Hive/Model/C12a*.lean of ds/shrinkingmap, ds/randommap, ds/generalheap + container/heap, ds/priorityqueue, runtime/timed/priority_queue.go, ds/queue, ds/ringbuffer, ds/stack, tied by differential execution (harness/c12)",
+    "trusted_base": ["hand-written models Hive/Model/C12a*.lean of ds/shrinkingmap, ds/randommap, ds/generalheap + container/heap, ds/priorityqueue, runtime/timed/priority_queue.go, ds/queue, ds/ringbuffer, ds/stack, tied by differential execution with the white-box state compared after every operation (harness/c12) and by regenerated skeleton / source / type obligations (harness/c12/skel, Hive/Props/C12aSkel.lean)",
+                     "sync.RWMutex excludes (lock bit of the protocol model Cb.sys); go/ast extractor harness/c12/skel",
                      "Go toolchain, compiled Lean driver"],
     "modelled": ["Go map iteration order is not modelled: iteration results are compared sorted",
                  "math/rand is an explicit oracle argument in the model; the tie compares membership, count and distinctness of random picks",
                  "float32 rounding of the shrink ratio is not modelled (ratio = fraction of naturals)",
-                 "mutexes are modelled as atomicity of each method (sequential histories only)",
+                 "mutexes: ShrinkingMap's callback-taking operations have a lock protocol model (Cb.sys, any number of callers) tied by forced callback-window schedules; the other containers are modelled as atomicity of each method (sequential histories), their lock structure is pinned by skeleton obligations",
                  "capacity 0 of Queue/RingBuffer (panics) is outside the property"],
     "manifest": {
-        "text": "Part A of C12: refinement theorems (every history, every option setting) for ShrinkingMap, RandomMap, generalheap/PriorityQueue/timed.PriorityQueue, Queue, RingBuffer, Stack against their abstract models; line-by-line differential tie plus an in-Go abstract-model oracle per container.",
+        "text": "Part A of C12: refinement theorems (every history, every option setting) for ShrinkingMap, RandomMap, generalheap/PriorityQueue/timed.PriorityQueue, Queue, RingBuffer, Stack against their abstract models; atomicity of ShrinkingMap's callback-taking operations for any number of callers (lock protocol invariant, linearizability check of forced callback-window schedules); line-by-line differential tie with the white-box state after every operation, retained-answer / aliasing oracles, an in-Go abstract-model oracle per container, and 144 regenerated skeleton / source / type obligations.",
         "note": "Trusted: Lean kernel; hand-written models (tie = differential execution).",
         "technique": "Lean 4 refinement / invariant proofs by induction over operation histories + differential correspondence",
     },
